@@ -945,6 +945,11 @@ def worklists_are_guarded(F, rep, fns):
                 order = [id(x) for x in nodes(lp)]
                 marks = [c for c in nodes(lp, "MethodCall") if c["m"] in ("insert", "entry") and
                          re.search(r"(HashMap|HashSet|BTreeMap|BTreeSet)<", peel(c["recv"]).get("ty") or "")]
+                # .. for *every* node: the mark stands where each turn of the loop passes it, not inside the arm of one constructor
+                from flow import uncond_nodes as _unc
+                body_ = lp.get("body") if lp.get("body") is not None else lp
+                every_turn = {id(x) for x in _unc(body_)}
+                marks = [c for c in marks if id(c) in every_turn]
                 first = bool(marks) and min(order.index(id(c)) for c in marks) < min(order.index(id(c)) for c in grows)
                 rep.ob("GUARD", "%s|worklist#%d|skips-what-it-has-met" % (last(p), k_), first,
                        "the work list of TypeChecker::%s enters every node into a set and goes into the components of new nodes only" % last(p) if first else
@@ -1242,6 +1247,8 @@ def census(F, rep, contracts):
                "%s calls `%s`, which panics when the value is absent, and the site is neither tied to a phase contract nor in the "
                "reviewed table (rules/c07.py UNWRAP_REVIEWED) with the reason why it cannot be absent for any input: e.g. the closest "
                "name among the variants of an enum declared without variants (`Never :: enum end`, `Never.Ever`)" % (fn_, shape_[:90]), where_)
+    # a reviewed reason that leans on a guard a few lines above holds while that guard stands: the premises the table names
+    premises_of_reviewed_unwraps(F, rep)
     rep.ob("CENSUS", "unwraps-reviewed", not unlisted, "every unwrap / expect outside the contracts is in the reviewed table (%d unlisted)" % len(unlisted))
     rep.ob("CENSUS", "sites", True, "%d panic-capable sites: %s" % (len(rows), {k: len(v) for k, v in sorted(by_status.items())}), sites=len(rows))
     rep.floor("CENSUS", "panic-capable sites", len(rows), 75)
@@ -2011,3 +2018,37 @@ def token_callbacks_cannot_panic(F, rep, rule="CENSUS"):
                "the callback cannot convert (an integer literal of 20 digits) panics inside the lexer instead of becoming an Error token "
                "and a syntax error" % (name, bad.group(0)))
     rep.floor(rule, "token patterns with a callback", n, 3)
+
+
+def premises_of_reviewed_unwraps(F, rep, rule="CENSUS"):
+    """`use <path>` without an alias names the import after the last segment of the path: `file_stem().unwrap()` of the path with its
+    slashes trimmed.  The reason it cannot fail - "the lone `/` is rejected above" - is a guard in the same function: a comparison of
+    the path with the literal "/" whose branch is an error, in front of the unwrap."""
+    fn = F.fns.get("sylt_parser::statement::statement")
+    if fn is None or fn.get("body") is None:
+        rep.anchor_missing("sylt_parser::statement::statement (premise of the file_stem unwrap)")
+        return
+    body = fn_body(fn)
+    order = [id(x) for x in nodes(body)]
+    stems = [c for c in nodes(body, "MethodCall") if c["m"] == "file_stem"]
+    guards = []
+    for i_ in nodes(body, "If"):
+        c = peel(i_["c"])
+        lits = [x for x in nodes(c, "Lit") if x.get("v") == "/"]
+        is_eq = c.get("k") == "Binary" and c.get("op") == "Eq" or (c.get("k") == "MethodCall" and c["m"] in ("eq",))
+        if lits and is_eq and (tc_is_err(i_["t"])):
+            guards.append(i_)
+    ok = bool(stems) and all(any(order.index(id(g)) < order.index(id(st)) for g in guards) for st in stems)
+    rep.ob(rule, "unwrap-premise|statement::statement|lone-slash-is-rejected-first", ok,
+           "`use /` without an alias is a syntax error before the import is named after the last path segment (%d guard(s))" % len(guards) if ok else
+           "statement() names an import without alias after `file_stem().unwrap()` of the trimmed path, but no comparison of the path with "
+           "\"/\" that ends in an error stands in front of it: `use /` trims to the empty path, file_stem() is None and the parser panics "
+           "(status 101, no diagnostic)", line_of(stems[0]) if stems else fn["sp"])
+
+
+def tc_is_err(e):
+    import tc as _tc
+    if _tc.is_err_value(e):
+        return True
+    # raise_syntax_error!: `return (ctx, Err(..))`
+    return any(r.get("k") == "Ret" for r in nodes(e)) and "Err" in pp(e)
